@@ -17,12 +17,15 @@ Definition sel {A} (ix : list nat) (l : list A) (j : nat) : list A :=
 Definition kept {A} (ix : list nat) (l : list A) (L : nat) : list A :=
   map snd (filter (fun kx => Nat.leb 1 (fst kx) && Nat.leb (fst kx) L) (combine ix l)).
 
+Lemma filter_length_le' {A} (f : A -> bool) l : length (filter f l) <= length l.
+Proof. induction l as [|x l IH]; cbn [filter length]; [lia|]. destruct (f x); cbn [length]; lia. Qed.
+
 Section ELgen.
   Context {T : Type} (O : NumOps T).
   (* bin edges and slab indices exactly as computed inside equivalent_layers *)
   Definition el_bins (h : list T) (L : nat) : list T :=
     let hstep := ndiv O (nsub O (lmax O h) (lmin O h)) (kn O L) in
-    arange O (lmin O h) (lmax O h) hstep.
+    slab_edges O (lmin O h) hstep L.
   Definition el_ix (h : list T) (L : nat) : list nat := map (fun x => digitize O x (el_bins h L)) h.
 
   Lemma el_unfold h p w L :
@@ -47,10 +50,20 @@ Section ELgen.
 
   Lemma el_ix_length h L : length (el_ix h L) = length h.
   Proof. unfold el_ix. apply map_length. Qed.
-End ELgen.
 
-Lemma filter_length_le' {A} (f : A -> bool) l : length (filter f l) <= length l.
-Proof. induction l as [|x l IH]; cbn [filter length]; [lia|]. destruct (f x); cbn [length]; lia. Qed.
+  (* the repaired slab edges: exactly L of them, hence no index above L -- for every carrier *)
+  Theorem slab_edges_length a s L : length (slab_edges O a s L) = L.
+  Proof. unfold slab_edges. rewrite map_length, seq_length. reflexivity. Qed.
+  Lemma el_bins_length h L : length (el_bins h L) = L.
+  Proof. unfold el_bins. apply slab_edges_length. Qed.
+  Lemma digitize_le_length x bins : digitize O x bins <= length bins.
+  Proof. unfold digitize. apply filter_length_le'. Qed.
+  Theorem el_ix_le_L h L : Forall (fun i => i <= L) (el_ix h L).
+  Proof.
+    unfold el_ix. apply Forall_forall. intros i Hi. apply in_map_iff in Hi. destruct Hi as [x [<- _]].
+    rewrite <- (el_bins_length h L) at 2. apply digitize_le_length.
+  Qed.
+End ELgen.
 
 Lemma sel_cons {A} a ix (x : A) l j :
   sel (a :: ix) (x :: l) j = if Nat.eqb a j then x :: sel ix l j else sel ix l j.
@@ -96,6 +109,15 @@ Proof.
 Qed.
 
 Local Open Scope R_scope.
+
+Lemma Rltb_false a b : ~ a < b -> Rltb a b = false.
+Proof. intros H. destruct (Rltb a b) eqn:E; [apply Rltb_true in E; tauto|reflexivity]. Qed.
+Lemma ln_nonpos x : ~ 0 < x -> ln x = 0.
+Proof. intros H. unfold ln. destruct (Rlt_dec 0 x); [contradiction|reflexivity]. Qed.
+Lemma Rpower_nonpos_base x y : ~ 0 < x -> Rpower x y = 1.
+Proof. intros H. unfold Rpower. rewrite ln_nonpos by exact H. rewrite Rmult_0_r. apply exp_0. Qed.
+Lemma Rpower_base_1 y : Rpower 1 y = 1.
+Proof. unfold Rpower. rewrite ln_1, Rmult_0_r. apply exp_0. Qed.
 
 Section ELreal.
 Variables (G : R -> R) (K : R -> R -> R).
@@ -160,7 +182,7 @@ Proof.
   rewrite el_ix_length. exact Hl.
 Qed.
 
-(* converse: a layer whose index is outside 1..L is dropped *)
+(* converse, for an arbitrary index list: an element whose index is outside 1..L is dropped *)
 Lemma kept_le ix (p : list R) L :
   Forall (fun x => 0 < x) p -> nsum O (kept ix p L) <= nsum O p.
 Proof.
@@ -185,15 +207,6 @@ Proof.
   - destruct p as [|x p]; [discriminate|]. inversion HF; subst. rewrite kept_cons.
     assert (nsum O (kept ix p L) < nsum O p) by (apply IH; auto).
     destruct (Nat.leb 1 a && Nat.leb a L); rewrite !nsum_R_cons; lra.
-Qed.
-
-Theorem el_total_dropped h p w L :
-  length h = length p -> Forall (fun x => 0 < x) p ->
-  Exists (fun i => ~ (1 <= i <= L)%nat) (el_ix O h L) ->
-  nsum O (map ent1 (equivalent_layers O h p w L)) < nsum O p.
-Proof.
-  intros Hl HF HE. rewrite el_strengths, nsum_map_seq, slab_sums_kept.
-  apply kept_lt; auto. rewrite el_ix_length. exact Hl.
 Qed.
 
 (* E4 *)
@@ -245,11 +258,31 @@ Proof.
     + apply IH; auto.
 Qed.
 
+(* a slab of zero strength (in particular an empty one) has zero 5/3-moment when strengths are >= 0 *)
+Lemma sel_zero_moment ix (p v : list R) j e :
+  length v = length p -> Forall (fun x => 0 <= x) p -> nsum O (sel ix p j) = 0 ->
+  nsum O (sel ix (map2 (fun a b => a * Rpower b e) p v) j) = 0.
+Proof.
+  revert p v; induction ix as [|a ix IH]; intros p v Hl HF Hz.
+  - rewrite sel_nil_l, nsum_R_nil. reflexivity.
+  - destruct p as [|x p]; [cbn [map2]; rewrite sel_nil_r, nsum_R_nil; reflexivity|].
+    destruct v as [|y v]; [discriminate|]. inversion HF as [|? ? Hx HF']; subst.
+    cbn [map2]. rewrite sel_cons in *. destruct (Nat.eqb a j).
+    + rewrite nsum_R_cons in *. pose proof (sel_nonneg ix p j HF') as Hr.
+      assert (x = 0) by lra. subst x. rewrite Rmult_0_l, Rplus_0_l. apply IH; auto. lra.
+    + apply IH; auto.
+Qed.
+
+(* per-slab condition under which c_i * h_i^(5/3) equals the slab's 5/3-moment S_i :
+   either c_i <> 0 and S_i / c_i > 0, or c_i = 0 = S_i (then 0 * anything = 0; the model returns
+   Rpower (0/0) (3/5) = 1 as height of such a slab) *)
+Definition slab_ok (c S : R) : Prop := (c <> 0 /\ 0 < S / c) \/ (c = 0 /\ S = 0).
+
 Lemma moment_core ix (p v : list R) L :
   length ix = length p -> length v = length p -> Forall (fun i => (1 <= i <= L)%nat) ix ->
   (forall i, (i < L)%nat ->
-     nsum O (sel ix p (S i)) <> 0 /\
-     0 < nsum O (map2 (fun a b => nmul O a (pw53 O b)) (sel ix p (S i)) (sel ix v (S i))) / nsum O (sel ix p (S i))) ->
+     slab_ok (nsum O (sel ix p (S i)))
+             (nsum O (map2 (fun a b => nmul O a (pw53 O b)) (sel ix p (S i)) (sel ix v (S i))))) ->
   rsum (fun i => nsum O (sel ix p (S i)) *
         Rpower (pw35 O (ndiv O (nsum O (map2 (fun a b => nmul O a (pw53 O b)) (sel ix p (S i)) (sel ix v (S i))))
                                (nsum O (sel ix p (S i))))) (5/3)) L
@@ -258,19 +291,22 @@ Proof.
   intros Hl Hv HF Hpos.
   rewrite (rsum_ext _ (fun i => nsum O (sel ix (map2 (fun a b => a * Rpower b (5/3)) p v) (S i)))).
   - rewrite slab_sums_kept, kept_all; auto. rewrite map2_length. rewrite Hv, Nat.min_id. exact Hl.
-  - intros i Hi. destruct (Hpos i Hi) as [Hc Hq].
+  - intros i Hi. specialize (Hpos i Hi).
     rewrite <- sel_map2.
     change (fun a b : R => a * Rpower b (5/3)) with (fun a b : R => nmul O a (pw53 O b)).
     set (c := nsum O (sel ix p (S i))) in *. set (s := nsum O (map2 _ _ _)) in *.
     change (c * Rpower (Rpower (s / c) (3/5)) (5/3) = s).
-    rewrite Rpower_35_53 by exact Hq. field. exact Hc.
+    destruct Hpos as [[Hc Hq]|[Hc Hs]].
+    + rewrite Rpower_35_53 by exact Hq. field. exact Hc.
+    + rewrite Hc, Hs. apply Rmult_0_l.
 Qed.
 
-Theorem el_moment53_gen h p w L :
+(* versions relative to an explicit index-range hypothesis (discharged below for the repaired model) *)
+Lemma el_moment53_ix h p w L :
   length h = length p -> Forall (fun i => (1 <= i <= L)%nat) (el_ix O h L) ->
   (forall i, (i < L)%nat ->
      let ps := sel (el_ix O h L) p (S i) in let hs := sel (el_ix O h L) h (S i) in
-     nsum O ps <> 0 /\ 0 < nsum O (map2 (fun a b => nmul O a (pw53 O b)) ps hs) / nsum O ps) ->
+     slab_ok (nsum O ps) (nsum O (map2 (fun a b => nmul O a (pw53 O b)) ps hs))) ->
   nsum O (map (fun e => ent1 e * Rpower (ent0 e) (5/3)) (equivalent_layers O h p w L))
   = nsum O (map2 (fun a b => a * Rpower b (5/3)) p h).
 Proof.
@@ -278,11 +314,11 @@ Proof.
   apply moment_core; auto. rewrite el_ix_length. exact Hl.
 Qed.
 
-Theorem el_wind53_gen h p w L :
+Lemma el_wind53_ix h p w L :
   length h = length p -> length w = length p -> Forall (fun i => (1 <= i <= L)%nat) (el_ix O h L) ->
   (forall i, (i < L)%nat ->
      let ps := sel (el_ix O h L) p (S i) in let ws := sel (el_ix O h L) w (S i) in
-     nsum O ps <> 0 /\ 0 < nsum O (map2 (fun a b => nmul O a (pw53 O b)) ps ws) / nsum O ps) ->
+     slab_ok (nsum O ps) (nsum O (map2 (fun a b => nmul O a (pw53 O b)) ps ws))) ->
   nsum O (map (fun e => ent1 e * Rpower (ent2 e) (5/3)) (equivalent_layers O h p w L))
   = nsum O (map2 (fun a b => a * Rpower b (5/3)) p w).
 Proof.
@@ -290,17 +326,18 @@ Proof.
   apply moment_core; auto. rewrite el_ix_length. exact Hl.
 Qed.
 
-Lemma slab_pos_hyp ix (p v : list R) L :
+(* with strengths >= 0 every slab is fine: positive strength gives a positive moment, zero strength a zero moment *)
+Lemma slab_ok_nonneg ix (p v : list R) j :
   length v = length p -> Forall (fun x => 0 <= x) p ->
-  (forall i, (i < L)%nat -> 0 < nsum O (sel ix p (S i))) ->
-  forall i, (i < L)%nat ->
-     nsum O (sel ix p (S i)) <> 0 /\
-     0 < nsum O (map2 (fun a b => nmul O a (pw53 O b)) (sel ix p (S i)) (sel ix v (S i))) / nsum O (sel ix p (S i)).
+  slab_ok (nsum O (sel ix p j))
+          (nsum O (map2 (fun a b => nmul O a (pw53 O b)) (sel ix p j) (sel ix v j))).
 Proof.
-  intros Hv HF Hc i Hi. specialize (Hc i Hi). split; [lra|].
-  apply Rdiv_lt_0_compat; [|exact Hc]. rewrite sel_map2.
+  intros Hv HF. rewrite sel_map2.
   change (fun a b : R => nmul O a (pw53 O b)) with (fun a b : R => a * Rpower b (5/3)).
-  apply sel_pos_moment; auto.
+  pose proof (sel_nonneg ix p j HF) as Hc.
+  destruct (Rle_lt_or_eq_dec _ _ Hc) as [Hpos|Hz].
+  - left. split; [lra|]. apply Rdiv_lt_0_compat; [|exact Hpos]. apply sel_pos_moment; auto.
+  - right. split; [auto|]. apply sel_zero_moment; auto.
 Qed.
 
 Lemma el_strength_pos_hyp h p w L :
@@ -313,37 +350,9 @@ Proof.
   apply in_map_iff. exists i. split; [reflexivity|]. apply in_seq. lia.
 Qed.
 
-(* the statement as first posed (only "c_i > 0, heights > 0") is false for strengths of mixed sign:
-   a slab may then have c_i > 0 but a non-positive 5/3-moment, and Rpower of a non-positive base is 1.
-   Correct variant: p_k >= 0 (heights may be arbitrary, since pw53 is Rpower on both sides). *)
-Theorem el_moment53_variant h p w L :
-  length h = length p -> Forall (fun i => (1 <= i <= L)%nat) (el_ix O h L) ->
-  Forall (fun x => 0 <= x) p ->
-  Forall (fun e => 0 < ent1 e) (equivalent_layers O h p w L) ->
-  nsum O (map (fun e => ent1 e * Rpower (ent0 e) (5/3)) (equivalent_layers O h p w L))
-  = nsum O (map2 (fun a b => a * Rpower b (5/3)) p h).
-Proof.
-  intros Hl HF Hp Hc. apply el_moment53_gen; auto. cbv zeta.
-  apply slab_pos_hyp; auto. eapply el_strength_pos_hyp; eauto.
-Qed.
-
-Theorem el_wind53_variant h p w L :
-  length h = length p -> length w = length p -> Forall (fun i => (1 <= i <= L)%nat) (el_ix O h L) ->
-  Forall (fun x => 0 <= x) p ->
-  Forall (fun e => 0 < ent1 e) (equivalent_layers O h p w L) ->
-  nsum O (map (fun e => ent1 e * Rpower (ent2 e) (5/3)) (equivalent_layers O h p w L))
-  = nsum O (map2 (fun a b => a * Rpower b (5/3)) p w).
-Proof.
-  intros Hl Hw HF Hp Hc. apply el_wind53_gen; auto. cbv zeta.
-  apply slab_pos_hyp; auto. eapply el_strength_pos_hyp; eauto.
-Qed.
-
 (* E5 : digitize at the real instance *)
 Lemma digitize_R x bins : digitize O x bins = length (filter (fun b => Rleb b x) bins).
 Proof. reflexivity. Qed.
-
-Lemma digitize_le_length x bins : (digitize O x bins <= length bins)%nat.
-Proof. rewrite digitize_R. apply filter_length_le'. Qed.
 
 Lemma digitize_cons x b bins :
   digitize O x (b :: bins) = if Rleb b x then S (digitize O x bins) else digitize O x bins.
@@ -387,14 +396,14 @@ Theorem digitize_spec bins x i :
    (forall k, (i <= k < length bins)%nat -> x < nth k bins 0)).
 Proof.
   intros HS. split.
-  - intros <-. split; [apply digitize_le_length|]. split.
+  - intros <-. split; [apply (digitize_le_length O)|]. split.
     + intros k Hk. destruct (Rle_dec (nth k bins 0) x) as [|Hn]; [auto|exfalso].
-      assert (k < length bins)%nat by (pose proof (digitize_le_length x bins); lia).
+      assert (k < length bins)%nat by (pose proof (digitize_le_length O x bins); lia).
       assert (digitize O x bins <= k)%nat by (apply digitize_le; auto; lra). lia.
     + intros k [Hk1 Hk2]. destruct (Rlt_dec x (nth k bins 0)) as [|Hn]; [auto|exfalso].
       assert (k < digitize O x bins)%nat by (apply digitize_gt; auto; lra). lia.
   - intros (Hi & Hlo & Hhi). apply Nat.le_antisymm.
-    + destruct (Nat.eq_dec i (length bins)) as [->|Hne]; [apply digitize_le_length|].
+    + destruct (Nat.eq_dec i (length bins)) as [->|Hne]; [apply (digitize_le_length O)|].
       apply digitize_le; [exact HS|lia|apply Hhi; lia].
     + destruct i as [|i]; [lia|]. apply digitize_gt; [exact HS|lia|apply Hlo; lia].
 Qed.
@@ -416,9 +425,9 @@ Proof.
     destruct (Rlt_dec x (nth L bins 0)) as [|Hn]; [auto|exfalso].
     assert (L < digitize O x bins)%nat by (apply digitize_gt; auto; lra). lia.
   - intros [Hlen|Hx].
-    + pose proof (digitize_le_length x bins). lia.
+    + pose proof (digitize_le_length O x bins). lia.
     + destruct (le_lt_dec (length bins) L) as [|Hlt].
-      * pose proof (digitize_le_length x bins). lia.
+      * pose proof (digitize_le_length O x bins). lia.
       * apply digitize_le; auto.
 Qed.
 
@@ -442,23 +451,178 @@ Proof.
   - intros x [Ha Hb]. split; [apply digitize_ge_1; auto|apply digitize_le_iff; auto].
 Qed.
 
+(* ---- the repaired slab edges: no layer is ever dropped ---- *)
+Lemma nmin_le_l a b : nmin O a b <= a.
+Proof.
+  unfold nmin. change (nltb O b a) with (Rltb b a). destruct (Rltb b a) eqn:E; [apply Rltb_true in E|]; lra.
+Qed.
+Lemma nmin_le_r a b : nmin O a b <= b.
+Proof.
+  unfold nmin. change (nltb O b a) with (Rltb b a). destruct (Rltb b a) eqn:E; [lra|].
+  destruct (Rle_dec a b) as [|Hn]; [auto|]. assert (b < a) by lra. apply Rltb_true in H. congruence.
+Qed.
+Lemma nmax_ge_l a b : a <= nmax O a b.
+Proof.
+  unfold nmax. change (nltb O a b) with (Rltb a b). destruct (Rltb a b) eqn:E; [apply Rltb_true in E|]; lra.
+Qed.
+Lemma nmax_ge_r a b : b <= nmax O a b.
+Proof.
+  unfold nmax. change (nltb O a b) with (Rltb a b). destruct (Rltb a b) eqn:E; [lra|].
+  destruct (Rle_dec b a) as [|Hn]; [auto|]. assert (a < b) by lra. apply Rltb_true in H. congruence.
+Qed.
+Lemma fold_nmin_le_acc l : forall a, fold_left (nmin O) l a <= a.
+Proof.
+  induction l as [|x l IH]; intros a; cbn [fold_left]; [lra|].
+  eapply Rle_trans; [apply IH|apply nmin_le_l].
+Qed.
+Lemma fold_nmin_le_In l : forall a x, In x l -> fold_left (nmin O) l a <= x.
+Proof.
+  induction l as [|y l IH]; intros a x Hx; [destruct Hx|]. cbn [fold_left]. destruct Hx as [->|Hx].
+  - eapply Rle_trans; [apply fold_nmin_le_acc|apply nmin_le_r].
+  - apply IH. exact Hx.
+Qed.
+Lemma fold_nmax_ge_acc l : forall a, a <= fold_left (nmax O) l a.
+Proof.
+  induction l as [|x l IH]; intros a; cbn [fold_left]; [lra|].
+  eapply Rle_trans; [apply nmax_ge_l|apply IH].
+Qed.
+Lemma fold_nmax_ge_In l : forall a x, In x l -> x <= fold_left (nmax O) l a.
+Proof.
+  induction l as [|y l IH]; intros a x Hx; [destruct Hx|]. cbn [fold_left]. destruct Hx as [->|Hx].
+  - eapply Rle_trans; [apply nmax_ge_r|apply fold_nmax_ge_acc].
+  - apply IH. exact Hx.
+Qed.
+Lemma fold_nmin_in l : forall a, fold_left (nmin O) l a = a \/ In (fold_left (nmin O) l a) l.
+Proof.
+  induction l as [|x l IH]; intros a; cbn [fold_left]; [left; reflexivity|].
+  destruct (IH (nmin O a x)) as [E|Hin]; [|right; right; exact Hin].
+  rewrite E. unfold nmin. destruct (nltb O x a); [right; left; reflexivity|left; reflexivity].
+Qed.
+
+(* lmin is a lower bound of every element (also for h = [], vacuously), lmax an upper bound *)
+Theorem lmin_le h : Forall (fun x => lmin O h <= x) h.
+Proof. apply Forall_forall. intros x Hx. unfold lmin. apply fold_nmin_le_In. exact Hx. Qed.
+Theorem lmax_ge h : Forall (fun x => x <= lmax O h) h.
+Proof. apply Forall_forall. intros x Hx. unfold lmax. apply fold_nmax_ge_In. exact Hx. Qed.
+Theorem lmin_in h : h <> [] -> In (lmin O h) h.
+Proof.
+  destruct h as [|a r]; [congruence|]. intros _. unfold lmin. cbn [hd].
+  destruct (fold_nmin_in (a :: r) a) as [E|Hin]; [rewrite E; left; reflexivity|exact Hin].
+Qed.
+
+(* the first edge is lmin h + hstep * 0 = lmin h, whatever hstep is *)
+Lemma el_bins_hd h L : hd 0 (el_bins O h (S L)) = lmin O h.
+Proof.
+  unfold el_bins, slab_edges. cbv zeta. cbn [seq map hd].
+  set (s := ndiv O _ _). change (lmin O h + s * 0 = lmin O h). lra.
+Qed.
+
+Theorem el_ix_ge_1 h L : (1 <= L)%nat -> Forall (fun i => (1 <= i)%nat) (el_ix O h L).
+Proof.
+  intros HL. destruct L as [|L]; [lia|]. unfold el_ix. apply Forall_forall. intros i Hi.
+  apply in_map_iff in Hi. destruct Hi as [x [<- Hx]]. apply digitize_ge_1.
+  - intros E. apply (f_equal (@length R)) in E. rewrite el_bins_length in E. discriminate.
+  - rewrite el_bins_hd. pose proof (lmin_le h) as Hm. rewrite Forall_forall in Hm. auto.
+Qed.
+
+(* for EVERY h (unsorted, repeated values, empty, ...) all slab indices are within 1..L *)
+Theorem el_ix_in_range h L : (1 <= L)%nat -> Forall (fun i => (1 <= i <= L)%nat) (el_ix O h L).
+Proof.
+  intros HL. pose proof (el_ix_ge_1 h L HL) as H1. pose proof (el_ix_le_L O h L) as H2.
+  rewrite Forall_forall in *. intros i Hi. split; auto.
+Qed.
+
+Corollary el_no_layer_dropped h (p : list R) L :
+  (1 <= L)%nat -> length h = length p -> kept (el_ix O h L) p L = p.
+Proof. intros HL Hl. apply kept_all; [rewrite el_ix_length; exact Hl|apply el_ix_in_range; exact HL]. Qed.
+
+Theorem el_total_unconditional h p w L :
+  (1 <= L)%nat -> length h = length p ->
+  nsum O (map ent1 (equivalent_layers O h p w L)) = nsum O p.
+Proof. intros HL Hl. apply el_total; [exact Hl|apply el_ix_in_range; exact HL]. Qed.
+
+(* 5/3-moments, most general per-slab form: c_i <> 0 and S_i / c_i > 0 for every slab *)
+Theorem el_moment53_gen h p w L :
+  (1 <= L)%nat -> length h = length p ->
+  (forall i, (i < L)%nat ->
+     let ps := sel (el_ix O h L) p (S i) in let hs := sel (el_ix O h L) h (S i) in
+     nsum O ps <> 0 /\ 0 < nsum O (map2 (fun a b => nmul O a (pw53 O b)) ps hs) / nsum O ps) ->
+  nsum O (map (fun e => ent1 e * Rpower (ent0 e) (5/3)) (equivalent_layers O h p w L))
+  = nsum O (map2 (fun a b => a * Rpower b (5/3)) p h).
+Proof.
+  intros HL Hl Hpos. apply el_moment53_ix; [exact Hl|apply el_ix_in_range; exact HL|].
+  intros i Hi. left. exact (Hpos i Hi).
+Qed.
+
+Theorem el_wind53_gen h p w L :
+  (1 <= L)%nat -> length h = length p -> length w = length p ->
+  (forall i, (i < L)%nat ->
+     let ps := sel (el_ix O h L) p (S i) in let ws := sel (el_ix O h L) w (S i) in
+     nsum O ps <> 0 /\ 0 < nsum O (map2 (fun a b => nmul O a (pw53 O b)) ps ws) / nsum O ps) ->
+  nsum O (map (fun e => ent1 e * Rpower (ent2 e) (5/3)) (equivalent_layers O h p w L))
+  = nsum O (map2 (fun a b => a * Rpower b (5/3)) p w).
+Proof.
+  intros HL Hl Hw Hpos. apply el_wind53_ix; [exact Hl|exact Hw|apply el_ix_in_range; exact HL|].
+  intros i Hi. left. exact (Hpos i Hi).
+Qed.
+
+(* unconditional versions: only p_k >= 0.  A slab of zero strength (e.g. an empty slab) has c_i = 0 and
+   S_i = 0, and 0 * h_i^(5/3) = 0 whatever height the model returns for it (it returns 1, see below).
+   The statement without p_k >= 0 is false (el_moment53_refuted); heights / winds may have any sign since
+   pw53 is Rpower on both sides. *)
+Theorem el_moment53 h p w L :
+  (1 <= L)%nat -> length h = length p -> Forall (fun x => 0 <= x) p ->
+  nsum O (map (fun e => ent1 e * Rpower (ent0 e) (5/3)) (equivalent_layers O h p w L))
+  = nsum O (map2 (fun a b => a * Rpower b (5/3)) p h).
+Proof.
+  intros HL Hl Hp. apply el_moment53_ix; [exact Hl|apply el_ix_in_range; exact HL|].
+  intros i Hi. cbv zeta. apply slab_ok_nonneg; auto.
+Qed.
+
+Theorem el_wind53 h p w L :
+  (1 <= L)%nat -> length h = length p -> length w = length p -> Forall (fun x => 0 <= x) p ->
+  nsum O (map (fun e => ent1 e * Rpower (ent2 e) (5/3)) (equivalent_layers O h p w L))
+  = nsum O (map2 (fun a b => a * Rpower b (5/3)) p w).
+Proof.
+  intros HL Hl Hw Hp. apply el_wind53_ix; [exact Hl|exact Hw|apply el_ix_in_range; exact HL|].
+  intros i Hi. cbv zeta. apply slab_ok_nonneg; auto.
+Qed.
+
+(* the earlier "_variant" forms (p_k >= 0 and every slab of positive strength) are now special cases *)
+Corollary el_moment53_variant h p w L :
+  (1 <= L)%nat -> length h = length p -> Forall (fun x => 0 <= x) p ->
+  Forall (fun e => 0 < ent1 e) (equivalent_layers O h p w L) ->
+  nsum O (map (fun e => ent1 e * Rpower (ent0 e) (5/3)) (equivalent_layers O h p w L))
+  = nsum O (map2 (fun a b => a * Rpower b (5/3)) p h).
+Proof. intros HL Hl Hp _. apply el_moment53; auto. Qed.
+
+Corollary el_wind53_variant h p w L :
+  (1 <= L)%nat -> length h = length p -> length w = length p -> Forall (fun x => 0 <= x) p ->
+  Forall (fun e => 0 < ent1 e) (equivalent_layers O h p w L) ->
+  nsum O (map (fun e => ent1 e * Rpower (ent2 e) (5/3)) (equivalent_layers O h p w L))
+  = nsum O (map2 (fun a b => a * Rpower b (5/3)) p w).
+Proof. intros HL Hl Hw Hp _. apply el_wind53; auto. Qed.
+
+(* what the model returns for an empty slab: strength 0, and 0/0 = 0 * /0 = 0 in R, Rpower 0 (3/5) = 1 *)
+Theorem el_empty_slab_entry h p w L i d :
+  (i < L)%nat -> sel (el_ix O h L) p (S i) = [] ->
+  nth i (equivalent_layers O h p w L) d = (1, 0, 1).
+Proof.
+  intros Hi He. rewrite el_unfold. rewrite nth_map_seq by exact Hi. cbv zeta. rewrite He.
+  cbn [map2]. rewrite nsum_R_nil. unfold pw35. change (npow O) with Rpower. change (ndiv O 0 0) with (0 / 0).
+  rewrite (Rpower_nonpos_base (0 / 0)); [reflexivity|]. unfold Rdiv. rewrite Rmult_0_l. lra.
+Qed.
+Corollary el_empty_slab_strength_zero h p w L i :
+  (i < L)%nat -> sel (el_ix O h L) p (S i) = [] ->
+  nth i (map ent1 (equivalent_layers O h p w L)) 0 = 0.
+Proof.
+  intros Hi He. change 0 with (ent1 ((1, 0, 1) : R * R * R)) at 1. rewrite map_nth.
+  rewrite (el_empty_slab_entry h p w L i _ Hi He). reflexivity.
+Qed.
+
 End ELreal.
 
 (* ---- the 5/3-moment statement WITHOUT "p_k >= 0" is false: explicit counterexample ---- *)
-Lemma Int_part_IZR z : Int_part (IZR z) = z.
-Proof.
-  unfold Int_part. assert (H : (z + 1)%Z = up (IZR z)) by (apply up_tech; [lra|rewrite plus_IZR; lra]).
-  rewrite <- H. lia.
-Qed.
-Lemma Rltb_false a b : ~ a < b -> Rltb a b = false.
-Proof. intros H. destruct (Rltb a b) eqn:E; [apply Rltb_true in E; tauto|reflexivity]. Qed.
-Lemma ln_nonpos x : ~ 0 < x -> ln x = 0.
-Proof. intros H. unfold ln. destruct (Rlt_dec 0 x); [contradiction|reflexivity]. Qed.
-Lemma Rpower_nonpos_base x y : ~ 0 < x -> Rpower x y = 1.
-Proof. intros H. unfold Rpower. rewrite ln_nonpos by exact H. rewrite Rmult_0_r. apply exp_0. Qed.
-Lemma Rpower_base_1 y : Rpower 1 y = 1.
-Proof. unfold Rpower. rewrite ln_1, Rmult_0_r. apply exp_0. Qed.
-
 Section ELrefute.
 Variables (G : R -> R) (K : R -> R -> R).
 Local Notation O := (ROps G K).
@@ -475,10 +639,8 @@ Proof.
 Qed.
 Lemma bins_12 : el_bins O [1;2] 1 = [1].
 Proof.
-  unfold el_bins. rewrite lmax_12, lmin_12. unfold arange, nceil, kn. rops. change (Z.of_nat 1) with 1%Z.
-  replace ((2 - 1) / ((2 - 1) / 1)) with (IZR 1) by field.
-  unfold Rfloor. rewrite <- opp_IZR, Int_part_IZR, <- opp_IZR, Int_part_IZR.
-  change (Z.to_nat (- - (1))) with 1%nat. cbn [seq map Z.of_nat]. f_equal. lra.
+  unfold el_bins. rewrite lmax_12, lmin_12. unfold slab_edges, kn. cbn [seq map Z.of_nat]. rops.
+  f_equal. lra.
 Qed.
 Lemma ix_12 : el_ix O [1;2] 1 = [1;1]%nat.
 Proof.
@@ -1126,14 +1288,208 @@ Qed.
 
 End OGreal.
 
+(* ========================================================================================== *)
+(* shape of the result of optimal_grouping: L layers, heights taken from h and increasing,    *)
+(* strengths non-negative                                                                      *)
+(* ========================================================================================== *)
+Local Close Scope R_scope.
+
+Section OGshape.
+  Context {T : Type} (O : NumOps T).
+
+  Lemma om_next_in_g h p N g : vicinity g N <> [] -> In (om_next O h p N g) (vicinity g N).
+  Proof.
+    intros Hne. unfold om_next. apply nth_In.
+    replace (length (vicinity g N)) with (length (om_costs O h p N g)) by (unfold om_costs; apply map_length).
+    apply argmin_lt. intros E. apply (f_equal (@length T)) in E. unfold om_costs in E. rewrite map_length in E.
+    destruct (vicinity g N); [congruence|discriminate].
+  Qed.
+  Lemma om_next_Inv_g h p N g : Inv N g -> Inv N (om_next O h p N g).
+  Proof.
+    intros H. apply (vicinity_Inv g N); [exact H|]. apply om_next_in_g. apply Inv_vicinity_nonempty. exact H.
+  Qed.
+  Lemma om_next_length_g h p N g : Inv N g -> length (om_next O h p N g) = length g.
+  Proof.
+    intros H. pose proof H as (HS & HF & _).
+    assert (Hin : In (om_next O h p N g) (vicinity g N)) by (apply om_next_in_g; apply Inv_vicinity_nonempty; exact H).
+    destruct (vicinity_invariant g N HS HF _ Hin) as (_ & Hl & _). exact Hl.
+  Qed.
+  Lemma opt_min_shape_g h p N : forall fuel g, Inv N g ->
+    Inv N (fst (opt_min O fuel h p N g)) /\ length (fst (opt_min O fuel h p N g)) = length g.
+  Proof.
+    induction fuel as [|f IH]; intros g Hg.
+    - rewrite opt_min_0. cbn [fst]. split; [apply om_next_Inv_g|apply om_next_length_g]; exact Hg.
+    - rewrite opt_min_S. destruct (list_eqb (om_next O h p N g) g).
+      + cbn [fst]. split; [apply om_next_Inv_g|apply om_next_length_g]; exact Hg.
+      + destruct (IH (om_next O h p N g) (om_next_Inv_g h p N g Hg)) as [H1 H2]. split; [exact H1|].
+        rewrite H2. apply om_next_length_g. exact Hg.
+  Qed.
+  Lemma fold_best_is_g (F : list nat -> list nat * T) starts : forall b,
+    let best := fold_left (fun b s => let r := F s in if nltb O (snd r) (snd b) then r else b) starts b in
+    best = b \/ exists s, In s starts /\ best = F s.
+  Proof.
+    induction starts as [|s0 r IH]; intros b; cbn [fold_left]; [left; reflexivity|].
+    cbv zeta in *. destruct (IH (if nltb O (snd (F s0)) (snd b) then F s0 else b)) as [->|[s [Hs ->]]].
+    - destruct (nltb O (snd (F s0)) (snd b)); [right; exists s0; split; [left|]; reflexivity|left; reflexivity].
+    - right. exists s. split; [right; exact Hs|reflexivity].
+  Qed.
+
+  (* the grouping kept by the restarts fold: admissible and of length L-1 *)
+  Lemma og_best_shape_g starts L h p :
+    Inv (length p) (equal_split (length p) L) ->
+    Forall (fun s => Inv (length p) s /\ length s = L - 1) starts ->
+    Inv (length p) (fst (og_best O starts L h p)) /\ length (fst (og_best O starts L h p)) = L - 1.
+  Proof.
+    intros H0 HF. unfold og_best.
+    destruct (fold_best_is_g (fun s => opt_min O 199 h p (length p) s) starts (og_init O L h p)) as [E|[s [Hs E]]];
+      cbv zeta in E; rewrite E.
+    - unfold og_init. destruct (opt_min_shape_g h p (length p) 199 _ H0) as [H1 H2].
+      split; [exact H1|]. rewrite H2. apply equal_split_length.
+    - rewrite Forall_forall in HF. destruct (HF s Hs) as [Hi Hl].
+      destruct (opt_min_shape_g h p (length p) 199 s Hi) as [H1 H2]. split; [exact H1|]. rewrite H2. exact Hl.
+  Qed.
+
+  Lemma og_groups_facts starts L h p :
+    2 <= L -> L < length p -> Forall (fun s => Inv (length p) s /\ length s = L - 1) starts ->
+    let groups := convert_splits_to_groups (fst (og_best O starts L h p)) (length p) in
+    concat groups = seq 0 (length p) /\ Forall (fun g => g <> []) groups /\ length groups = L.
+  Proof.
+    intros H2 HN HF groups.
+    assert (H1 : 1 <= L) by lia.
+    destruct (og_best_shape_g starts L h p (equal_split_Inv _ _ H1 HN) HF) as ((HS & HB & _) & Hlen).
+    assert (Hne : fst (og_best O starts L h p) <> []).
+    { intros E. rewrite E in Hlen. cbn [length] in Hlen. lia. }
+    destruct (groups_partition _ (length p) Hne HS HB) as (Hc & Hn & Hl).
+    split; [exact Hc|]. split; [exact Hn|]. unfold groups. rewrite Hl, Hlen. lia.
+  Qed.
+
+  (* (1) exactly L layers are returned -- any carrier *)
+  Theorem og_returns_L_layers starts L h p :
+    2 <= L -> L < length p -> Forall (fun s => Inv (length p) s /\ length s = L - 1) starts ->
+    length (fst (optimal_grouping O starts L h p)) = L /\ length (snd (optimal_grouping O starts L h p)) = L.
+  Proof.
+    intros H2 HN HF. destruct (og_groups_facts starts L h p H2 HN HF) as (_ & _ & Hl).
+    rewrite og_unfold. cbv zeta. cbn [fst snd]. unfold hmin_of. rewrite !map_length. split; exact Hl.
+  Qed.
+
+  (* every returned height is an input height -- any carrier *)
+  Theorem og_heights_members starts L h p :
+    2 <= L -> L < length p -> Forall (fun s => Inv (length p) s /\ length s = L - 1) starts ->
+    length h = length p ->
+    Forall (fun x => In x h) (fst (optimal_grouping O starts L h p)).
+  Proof.
+    intros H2 HN HF Hh. destruct (og_groups_facts starts L h p H2 HN HF) as (Hc & Hn & _).
+    rewrite og_unfold. cbv zeta. cbn [fst]. apply hmin_members.
+    rewrite Forall_forall in *. intros g Hg. split; [apply Hn; exact Hg|].
+    apply Forall_forall. intros k Hk.
+    assert (Hin : In k (seq 0 (length p))) by (rewrite <- Hc; apply in_concat; exists g; auto).
+    apply in_seq in Hin. lia.
+  Qed.
+End OGshape.
+
+(* consecutive groups: every index of an earlier group is below every index of a later one *)
+Definition groups_lt (g1 g2 : list nat) : Prop := forall a b, In a g1 -> In b g2 -> a < b.
+
+Lemma SS_lt_app_inv (l1 l2 : list nat) :
+  StronglySorted lt (l1 ++ l2) -> StronglySorted lt l2 /\ (forall a b, In a l1 -> In b l2 -> a < b).
+Proof.
+  induction l1 as [|x l1 IH]; cbn [app]; intros HS; [split; [exact HS|intros a b []]|].
+  inversion HS as [|? ? HS' HF]; subst. destruct (IH HS') as [H2 Hc]. split; [exact H2|].
+  intros a b [<-|Ha] Hb; [|apply Hc; auto]. rewrite Forall_forall in HF. apply HF. apply in_or_app. right. exact Hb.
+Qed.
+
+Lemma SS_lt_seq a n : StronglySorted lt (seq a n).
+Proof. rewrite <- (map_id (seq a n)). apply (SS_map_seq (fun k => k)). intros; lia. Qed.
+
+Lemma groups_ordered groups : StronglySorted lt (concat groups) -> StronglySorted groups_lt groups.
+Proof.
+  induction groups as [|g r IH]; intros HS; [constructor|]. cbn [concat] in HS.
+  destruct (SS_lt_app_inv _ _ HS) as [H2 Hc]. constructor; [apply IH; exact H2|].
+  apply Forall_forall. intros g2 Hg2 a b Ha Hb. apply Hc; [exact Ha|]. apply in_concat. exists g2. auto.
+Qed.
+
+Local Open Scope R_scope.
+
+Lemma SS_nth_R (h : list R) : StronglySorted Rlt h ->
+  forall a b, (a < b)%nat -> (b < length h)%nat -> nth a h 0 < nth b h 0.
+Proof.
+  induction 1 as [|x l HS IH HF]; intros a b Hab Hb; [cbn in Hb; lia|].
+  destruct b as [|b]; [lia|]. cbn [length] in Hb. destruct a as [|a]; cbn [nth].
+  - rewrite Forall_forall in HF. apply HF. apply nth_In. lia.
+  - apply IH; lia.
+Qed.
+
+(* picking one index inside each of consecutive groups and reading a strictly increasing h there gives a
+   strictly increasing list *)
+Lemma picked_heights_sorted (h : list R) (pick : list nat -> nat) groups :
+  StronglySorted Rlt h -> StronglySorted groups_lt groups ->
+  Forall (fun g => In (pick g) g /\ Forall (fun k => (k < length h)%nat) g) groups ->
+  StronglySorted Rlt (map (fun g => nth (pick g) h 0) groups).
+Proof.
+  intros Hh HS. induction HS as [|g r HS IH Hg]; intros HF; cbn [map]; [constructor|].
+  inversion HF as [|? ? [Hpg Hbg] HF']; subst. constructor; [apply IH; exact HF'|].
+  apply Forall_forall. intros y Hy. apply in_map_iff in Hy. destruct Hy as [g2 [<- Hg2]].
+  rewrite Forall_forall in Hg, HF'. destruct (HF' g2 Hg2) as [Hp2 Hb2].
+  apply SS_nth_R; [exact Hh|apply (Hg g2 Hg2); assumption|].
+  rewrite Forall_forall in Hb2. apply Hb2. exact Hp2.
+Qed.
+
+Section OGshapeR.
+Variables (G : R -> R) (K : R -> R -> R).
+Local Notation O := (ROps G K).
+
+(* (2) for strictly increasing input heights the returned heights are input heights and strictly increasing *)
+Theorem og_heights_members_increasing starts L h p :
+  (2 <= L)%nat -> (L < length p)%nat ->
+  Forall (fun s => Inv (length p) s /\ length s = (L - 1)%nat) starts ->
+  length h = length p -> StronglySorted Rlt h ->
+  Forall (fun x => In x h) (fst (optimal_grouping O starts L h p)) /\
+  StronglySorted Rlt (fst (optimal_grouping O starts L h p)).
+Proof.
+  intros H2 HN HF Hl Hh. split; [apply og_heights_members; auto|].
+  destruct (og_groups_facts O starts L h p H2 HN HF) as (Hc & Hn & _).
+  rewrite og_unfold. cbv zeta. cbn [fst]. unfold hmin_of.
+  set (groups := convert_splits_to_groups (fst (og_best O starts L h p)) (length p)) in *.
+  change (StronglySorted Rlt
+            (map (fun g => nth ((fun g0 => nth (argmin O (group_costs O h p g0)) g0 0%nat) g) h 0) groups)).
+  apply picked_heights_sorted; [exact Hh| |].
+  - apply groups_ordered. rewrite Hc. apply SS_lt_seq.
+  - rewrite Forall_forall in *. intros g Hg. split.
+    + apply nth_In. rewrite <- (group_costs_length O h p g). apply argmin_lt.
+      intros E. apply (f_equal (@length R)) in E. rewrite group_costs_length in E.
+      specialize (Hn g Hg). destruct g; [congruence|discriminate].
+    + apply Forall_forall. intros k Hk.
+      assert (Hin : In k (seq 0 (length p))) by (rewrite <- Hc; apply in_concat; exists g; auto).
+      apply in_seq in Hin. lia.
+Qed.
+
+(* (3) every returned strength is a sum of input strengths (out-of-range reads give the default 0):
+   no hypothesis on starts, L or the lengths *)
+Theorem og_strengths_nonneg starts L h p :
+  Forall (fun x => 0 <= x) p -> Forall (fun x => 0 <= x) (snd (optimal_grouping O starts L h p)).
+Proof.
+  intros Hp. rewrite og_unfold. cbv zeta. cbn [snd].
+  apply Forall_forall. intros y Hy. apply in_map_iff in Hy. destruct Hy as [g [<- _]].
+  apply nsum_nonneg. apply Forall_forall. intros x Hx. apply in_map_iff in Hx. destruct Hx as [k [<- _]].
+  destruct (nth_in_or_default k p (nzero O)) as [Hin | ->].
+  - rewrite Forall_forall in Hp. apply Hp. exact Hin.
+  - change (nzero O) with 0. lra.
+Qed.
+
+End OGshapeR.
+
 (* ---- axioms used by the main theorems (the standard axioms behind Coq's Reals library: sig_not_dec, sig_forall_dec,
         functional_extensionality_dep, classic -- for the real-number theorems;
         "Closed under the global context" for the generic and nat-level ones) ---- *)
 Print Assumptions el_length.
 Print Assumptions el_total.
-Print Assumptions el_total_dropped.
-Print Assumptions el_moment53_variant.
-Print Assumptions el_wind53_variant.
+Print Assumptions el_ix_le_L.
+Print Assumptions el_ix_in_range.
+Print Assumptions el_total_unconditional.
+Print Assumptions el_moment53.
+Print Assumptions el_wind53.
+Print Assumptions el_moment53_gen.
+Print Assumptions el_empty_slab_entry.
 Print Assumptions el_moment53_refuted.
 Print Assumptions el_nonneg.
 Print Assumptions digitize_spec.
@@ -1151,3 +1507,7 @@ Print Assumptions equal_split_Inv.
 Print Assumptions og_cost_le_equal_split.
 Print Assumptions og_best_consistent.
 Print Assumptions og_total_Inv.
+Print Assumptions og_returns_L_layers.
+Print Assumptions og_heights_members.
+Print Assumptions og_heights_members_increasing.
+Print Assumptions og_strengths_nonneg.
